@@ -239,8 +239,8 @@ def iterpath(obj, path=None):
 
         elif isinstance(varobj, list):
 
-            for item in varobj:
-                index = '[{0}]'.format(varobj.index(item))
+            for i, item in enumerate(varobj):
+                index = '[{0}]'.format(i)
                 path.append(index)
 
                 yield (path, item)
